@@ -2,7 +2,7 @@
 //!
 //! (enc <doc> <ver> (rnd ..) (ivs ..))      encrypt <doc> under <ver> with lopdf (own randomness; the
 //!                                          rnd / ivs lists are for the model) -> (encdoc <doc'>) | (err C)
-//! (case <doc> <ver> <encdoc> (pws xPW ..) [alldiff])
+//! (case <doc> <ver> <encdoc> (pws xPW ..) (flags [alldiff] [noverdict] [noreenc]))
 //!     result : (res (reenc 1) (dec r ..)),  r = decrypt(pw) on <encdoc>: (ok <doc''> xKEY) | (err C) | (panic)
 //!     verdict: the property evaluated directly on the implementation, independently of <encdoc>:
 //!       encrypt <doc> afresh; decrypting with the user and with the owner password -- in memory and after
@@ -243,16 +243,31 @@ fn payload_by_key(o: &Object) -> Vec<(Vec<u8>, Vec<u8>)> {
     out
 }
 
-fn restored(orig: &Document, d: &Document, what: &str) -> Result<(), String> {
+/// every string / stream content of `orig` that `keep` also holds (same object, same path, same bytes) must be in `d`
+fn restored(orig: &Document, d: &Document, what: &str, keep: &Document) -> Result<(), String> {
     if d.trailer.get(b"Encrypt").is_ok() {
         return Err(format!("{}: trailer still has /Encrypt", what));
     }
     for (id, o) in &orig.objects {
+        let Some(k) = keep.objects.get(id) else { continue };
+        let kept = payload_by_key(k);
+        let want: Vec<_> = payload_by_key(o).into_iter().filter(|it| kept.contains(it)).collect();
+        if want.is_empty() {
+            continue;
+        }
         let Some(o2) = d.objects.get(id) else {
             return Err(format!("{}: object {:?} disappeared", what, id));
         };
-        if payload_by_key(o) != payload_by_key(o2) {
-            return Err(format!("{}: strings/streams of object {:?} differ from the original", what, id));
+        let got = payload_by_key(o2);
+        for it in &want {
+            if !got.contains(it) {
+                let other = got.iter().find(|g| g.0 == it.0).map(|g| hex(&g.1)).unwrap_or_else(|| "nothing".into());
+                return Err(format!("{}: object {:?} at '{}': want x{} got x{}", what, id,
+                                   String::from_utf8_lossy(&it.0), hex(&it.1), other));
+            }
+        }
+        if std::ptr::eq(orig, keep) && got.len() != want.len() {
+            return Err(format!("{}: object {:?} has {} strings/streams, the original {}", what, id, got.len(), want.len()));
         }
     }
     Ok(())
@@ -284,6 +299,14 @@ fn direct_verdict(doc0: &Document, v: &Ver, pws: &[Vec<u8>], alldiff: bool) -> S
             }
         }
     }
+    let baseline: Option<Document> = {
+        let mut bytes = vec![];
+        let mut p = doc0.clone();
+        match p.save_to(&mut bytes) {
+            Ok(()) => Document::load_mem(&bytes).ok(),
+            Err(_) => None,
+        }
+    };
     let trunc = |p: &[u8]| -> Vec<u8> {
         let n = if v.tag == "r5" || v.tag == "v5" { 127 } else { 32 };
         p[..p.len().min(n)].to_vec()
@@ -295,7 +318,7 @@ fn direct_verdict(doc0: &Document, v: &Ver, pws: &[Vec<u8>], alldiff: bool) -> S
             Err(e) => return format!("FAIL decrypt with the {} password: {}", who, err_class(&e)),
             Ok(()) => {}
         }
-        if let Err(m) = restored(doc0, &d, &format!("in memory, {} password", who)) {
+        if let Err(m) = restored(doc0, &d, &format!("in memory, {} password", who), doc0) {
             return format!("FAIL {}", m);
         }
         if d.objects.len() != doc0.objects.len() {
@@ -316,8 +339,11 @@ fn direct_verdict(doc0: &Document, v: &Ver, pws: &[Vec<u8>], alldiff: bool) -> S
                 return format!("FAIL after save/load, decrypt with the {} password: {}", who, err_class(&e));
             }
         }
-        if let Err(m) = restored(doc0, &d, &format!("after save/load, {} password", who)) {
-            return format!("FAIL {}", m);
+        // what a save + load of the PLAIN document preserves is property C01's business: compare with that
+        if let Some(base) = &baseline {
+            if let Err(m) = restored(doc0, &d, &format!("after save/load, {} password", who), base) {
+                return format!("FAIL {}", m);
+            }
         }
     }
     for pw in pws {
@@ -349,14 +375,16 @@ fn main() {
         let (Some(tag), true) = (x.tag(), a.len() >= 4) else { return bad };
         let (Some(doc0), Some(v)) = (doc_of_sx(&a[0]), ver_of_sx(&a[1])) else { return bad };
         if tag == "enc" {
-            let st = match make_state(&v, &doc0) {
-                Ok(s) => s,
-                Err(e) => return (sx_err(&e), "skip".into()),
-            };
-            let mut d = doc0.clone();
-            return match d.encrypt(&st) {
-                Ok(()) => (Sx::tagged("encdoc", vec![doc_to_sx(&d)]), "skip".into()),
-                Err(e) => (sx_err(&e), "skip".into()),
+            // unsupported parameters (V2 with a key length below 8 bits) make Rc4::new assert: reported as (panic)
+            let r = catch_unwind(AssertUnwindSafe(|| {
+                let st = make_state(&v, &doc0)?;
+                let mut d = doc0.clone();
+                d.encrypt(&st).map(|_| d)
+            }));
+            return match r {
+                Err(_) => (Sx::L(vec![Sx::id("panic")]), "skip".into()),
+                Ok(Ok(d)) => (Sx::tagged("encdoc", vec![doc_to_sx(&d)]), "skip".into()),
+                Ok(Err(e)) => (sx_err(&e), "skip".into()),
             };
         }
         if tag != "case" {
@@ -364,7 +392,8 @@ fn main() {
         }
         let Some(encd) = doc_of_sx(&a[2]) else { return bad };
         let pws: Vec<Vec<u8>> = a[3].args().iter().filter_map(|p| p.as_bytes()).collect();
-        let alldiff = a.get(4).map(|f| f.is_id("alldiff")).unwrap_or(false);
+        let flag = |name: &str| a.get(4).map(|f| f.args().iter().any(|y| y.is_id(name)) || f.tag() == Some(name)).unwrap_or(false);
+        let alldiff = flag("alldiff");
         let mut dec = vec![];
         for pw in &pws {
             let mut d = encd.clone();
@@ -380,9 +409,12 @@ fn main() {
         }
         let res = Sx::tagged(
             "res",
-            vec![Sx::tagged("reenc", vec![Sx::boolean(true)]), Sx::tagged("dec", dec)],
+            vec![
+                Sx::tagged("reenc", vec![if flag("noreenc") { Sx::id("skipped") } else { Sx::boolean(true) }]),
+                Sx::tagged("dec", dec),
+            ],
         );
-        let verdict = if a.get(4).map(|f| f.is_id("noverdict")).unwrap_or(false) {
+        let verdict = if flag("noverdict") {
             "skip".to_string()
         } else {
             direct_verdict(&doc0, &v, &pws, alldiff)
